@@ -47,7 +47,8 @@ func main() {
 				if len(parts) >= 4 {
 					os.Setenv("COVERIF_STAGE1_DIR", parts[3])
 				}
-				guarded(parts[0], func() { viaGoGen(parts[0], parts[1], parts[2]) })
+				custom := strings.HasPrefix(job, "gogen=") && strings.HasSuffix(parts[2], "-opt")
+				guarded(parts[0], func() { viaGoGen(parts[0], parts[1], parts[2], custom) })
 				continue
 			}
 			parts := strings.Split(job, ":")
@@ -72,7 +73,16 @@ func main() {
 // viaGoGen runs the package of src through rewriter.GoGen (what cmd/cogen does): the go-co files of src (they use
 // the API) are copied to work as <name>_co.go under the build tag co, everything else as it is; GoGen derives
 // <name>.go next to them; the derived files are copied to dst (where Compile would have written them).
-func viaGoGen(src, dst, work string) {
+//
+// custom: the same through GoGen's OPTIONS (file suffix "gen", build tag "gen"): sources become <name>_gen.go under
+// the tag gen, and every derived file must carry the constraint of THAT tag.
+func viaGoGen(src, dst, work string, custom bool) {
+	suffix, tag := "co", "co"
+	var opts []rewriter.Option
+	if custom {
+		suffix, tag = "gen", "gen"
+		opts = []rewriter.Option{rewriter.WithFileSuffix(suffix), rewriter.WithBuildTag(tag)}
+	}
 	must := func(err error) {
 		if err != nil {
 			panic(err)
@@ -93,18 +103,21 @@ func viaGoGen(src, dst, work string) {
 		name := e.Name()
 		if strings.HasSuffix(name, ".go") && strings.Contains(string(bs), "github.com/goghcrow/go-co\"") {
 			derived = append(derived, name)
-			name = strings.TrimSuffix(name, ".go") + "_co.go"
-			bs = append([]byte("//go:build co\n\n"), bs...)
+			name = strings.TrimSuffix(name, ".go") + "_" + suffix + ".go"
+			bs = append([]byte("//go:build "+tag+"\n\n"), bs...)
 		}
 		must(os.WriteFile(filepath.Join(work, name), bs, 0o644))
 	}
-	rewriter.GoGen(work)
+	rewriter.GoGen(work, opts...)
 	for _, name := range derived {
 		bs, err := os.ReadFile(filepath.Join(work, name))
 		if os.IsNotExist(err) {
-			panic("GOGEN-NO-OUTPUT: GoGen returned normally but did not derive " + name + " from " + strings.TrimSuffix(name, ".go") + "_co.go")
+			panic("GOGEN-NO-OUTPUT: GoGen returned normally but did not derive " + name + " from " + strings.TrimSuffix(name, ".go") + "_" + suffix + ".go")
 		}
 		must(err)
+		if !strings.HasPrefix(string(bs), "//go:build !"+tag+"\n\n") {
+			panic("GOGEN-HEADER: the derived file " + name + " does not start with the constraint '//go:build !" + tag + "' of the build tag the tool was run with: " + strings.SplitN(string(bs), "\n", 2)[0])
+		}
 		must(os.WriteFile(filepath.Join(dst, name), bs, 0o644))
 	}
 	left, _ := filepath.Glob(filepath.Join(work, "_co_tmp*"))
